@@ -289,11 +289,11 @@ func (c *Ctx) c12Visit() {
 		}
 		var locks []lockOps
 		if rel == "pkg/storage/mem" {
-			if f := p.Field(rel, "Store", "Mutex"); f != nil {
+			if f := p.MutexField(rel, "Store"); f != nil {
 				locks = append(locks, opsFor(f))
 			}
 		}
-		if f := p.Field(rel, "mbox", "RWMutex"); f != nil {
+		if f := p.MutexField(rel, "mbox"); f != nil {
 			locks = append(locks, opsFor(f))
 		}
 		eng.EachInstr(vm, func(in ssa.Instruction) {
